@@ -14,7 +14,7 @@
 (* Slack: tau = 2^-13 h, h = (|A|^2 + |B|^2)/2 >= ||H||, which is >= 17x   *)
 (* the worst-case effect of the 2^-20 quantisation of R on every clause.   *)
 (***************************************************************************)
-EXTENDS Kabsch, FiniteSetsExt, TLC, Json, IOUtils
+EXTENDS Kabsch, FiniteSetsExt, SequencesExt, TLC, Json, IOUtils
 
 CONSTANTS NBlocks, NetMax
 Traces == JsonDeserialize(IOEnv.TRACE_FILE).traces
@@ -49,7 +49,7 @@ Guard(t) ==
 ShapeOK(t) ==
   /\ Len(t.R) = 3 /\ \A i \in Ix : Len(t.R[i]) = 3 /\ \A j \in Ix : t.R[i][j] \in -2097152..2097152
   /\ (t.kind = "points" => /\ Len(t.AR) = Len(t.A)
-                           /\ \A p \in DOMAIN t.AR : Len(t.AR[p]) = 3
+                           /\ \A p \in DOMAIN t.AR : Len(t.AR[p]) = 3 /\ \A j \in Ix : t.AR[p][j] \in -1000000000..1000000000
                            /\ t.rmsd >= 0)
 
 Orthogonal(rrt) == \A i \in Ix : \A j \in Ix :
@@ -70,15 +70,31 @@ CertPSD(M, tauQ) ==
       S == [i \in Ix |-> [j \in Ix |-> BSub(IF i = j THEN tr2 ELSE BZero, BAdd(M[i][j], M[j][i]))]]   \* 2 (tr(M) I - sym(M) + tau I)
   IN BPSD3(S)
 
-(* max over the net of tr(Q^T H), as <<num, den>>, by a linear fold in plain integers *)
-NetBest(H) == FoldSet(LAMBDA q, b : IF Frob(q.n, H) * b[2] > b[1] * q.d THEN <<Frob(q.n, H), q.d>> ELSE b,
-                      <<Frob(M3Id, H), 1>>, Net)
+(* max over the net of tr(Q^T H), as <<num, den>>, by a linear fold in plain integers;  *)
+(* the net is flattened once to tuples <<n11, .., n33, d>>                              *)
+FlatNet == {<<r.n[1][1], r.n[1][2], r.n[1][3], r.n[2][1], r.n[2][2], r.n[2][3], r.n[3][1], r.n[3][2], r.n[3][3], r.d>> : r \in Net}
+NetBest(H) ==
+  LET h == <<H[1][1], H[1][2], H[1][3], H[2][1], H[2][2], H[2][3], H[3][1], H[3][2], H[3][3]>>
+      Better(f, b) == LET v == f[1]*h[1] + f[2]*h[2] + f[3]*h[3] + f[4]*h[4] + f[5]*h[5] + f[6]*h[6] + f[7]*h[7] + f[8]*h[8] + f[9]*h[9]
+                      IN IF v * b[2] > b[1] * f[10] THEN <<v, f[10]>> ELSE b
+  IN FoldSet(Better, <<Frob(M3Id, H), 1>>, FlatNet)
 (* sum |A R - B|^2 <= sum |A Q - B|^2 + tau for every Q of the net *)
 NoBetterInNet(res, best, aabb, tau2) ==
   BLe(BMulInt(res, best[2]),
       BAdd(BMul(P2Q, BSub(BMul(BI(aabb), BI(best[2])), BI(2 * best[1]))), BMulInt(tau2, best[2])))
-(* rmsd_points^2 n = sum |A R - B|^2 *)
-RmsdOK(res, n, rmsd, tau2) == BLe(BAbs(BSub(BMulInt(BMul(BI(rmsd), BI(rmsd)), n), res)), tau2)
+(* rmsd_points^2 n = sum |A R - B|^2, with A R as reorient_points returns it (2^-20 per    *)
+(* coordinate, much finer than the residual of the quantised R).  S is on the scale 2^2Q.  *)
+(* Slack: 2^-10 relative plus n 2^-28 absolute (on 2^2Q: n 2^12) for the quantisation      *)
+(* e = 2^-21 of rmsd and of the coordinates: 2 n rmsd e <= 2^-11 n rmsd^2 + 2^11 n e^2.    *)
+PointResid2(AR, B, p) ==
+  LET d1 == BI(AR[p][1] - 1048576 * B[p][1])
+      d2 == BI(AR[p][2] - 1048576 * B[p][2])
+      d3 == BI(AR[p][3] - 1048576 * B[p][3])
+  IN BAdd(BAdd(BMul(d1, d1), BMul(d2, d2)), BMul(d3, d3))
+ObsResid2Points(AR, B) == FoldLeft(LAMBDA acc, x : BAdd(acc, x), BZero, [p \in DOMAIN AR |-> PointResid2(AR, B, p)])
+RmsdOK(S, n, rmsd) ==
+  LET lhs == BMulInt(BMul(BI(rmsd), BI(rmsd)), n)
+  IN BLe(BMulInt(BAbs(BSub(lhs, S)), 1024), BAdd(BAdd(S, lhs), BI(n * 4194304)))
 
 Verdict(t) ==
   LET g == Guard(t) IN
@@ -106,7 +122,7 @@ Verdict(t) ==
   IF ~CertPSD(M, tauQ) THEN "REJECT CertificatePSD" ELSE
   IF ~NoBetterInNet(res, NetBest(H), M3Tr(AA) + bb, tau2) THEN "REJECT NoBetterInNet" ELSE
   IF t.kind = "points" /\ ~ReorientOK(A, R, t.AR) THEN "REJECT Reorient" ELSE
-  IF t.kind = "points" /\ ~RmsdOK(res, Len(A), t.rmsd, tau2) THEN "REJECT Rmsd" ELSE
+  IF t.kind = "points" /\ ~RmsdOK(ObsResid2Points(t.AR, B), Len(A), t.rmsd) THEN "REJECT Rmsd" ELSE
   "ACCEPT"
 
 Ids(b) == {i \in 1..Len(Traces) : i % NBlocks = b - 1}
